@@ -109,12 +109,12 @@ impl Default for Profile {
             done_and_fall_off: true,
             idioms: true,
             no_fall_off: false,
-            rich_choice_text: false,
+            rich_choice_text: true,
             no_tags_in_functions: false,
-            nested_inline: false,
+            nested_inline: true,
             label_diverts: false,
-            block_sequences: false,
-            switch_blocks: false,
+            block_sequences: true,
+            switch_blocks: true,
         }
     }
 }
